@@ -179,12 +179,24 @@ func runC11(r *core.Run) int {
 				local := map[[2]int]struct{}{}
 				for k := 0; k < opsPerG; k++ {
 					oi := prng.Intn(len(hOps))
+					for hOps[oi].seqOnly {
+						oi = prng.Intn(len(hOps))
+					}
+					sameFirst := false
+					if k == 0 {
+						// every goroutine's first call of the round is the SAME operation on the same fresh
+						// Regexp (rotating over the alphabet from its end, round by round): whatever that
+						// operation builds lazily is built by all of them at once
+						if c := (len(hOps) - 1 - round%len(hOps)); !hOps[c].seqOnly {
+							oi, sameFirst = c, true
+						}
+					}
 					op := hOps[oi]
 					re := shared[op.pat]
 					if k < 12 || prng.Intn(3) == 0 {
 						re = fresh[op.pat]
 					}
-					priv := prng.Intn(5) == 0
+					priv := prng.Intn(5) == 0 && !sameFirst
 					if priv {
 						// a Regexp of this goroutine only: shares just the global pools and the clock
 						if private[op.pat] == nil {
@@ -196,6 +208,18 @@ func runC11(r *core.Run) int {
 						// the code-gen engine registry: writers next to the MustCompile readers (private / fresh compiles)
 						regexp2.RegisterEngine(fmt.Sprintf("verif-never-compiled-%d-%d-%d", round, g, k), regexp2.RuntimeEngineData{})
 						registryWrites.Add(1)
+					}
+					if sameFirst {
+						// no bookkeeping before this call: the monitor's own atomics would order the
+						// goroutines' first calls and hide an unsynchronised first use from the race detector
+						got := op.run(re)
+						done.Add(1)
+						if got != exp[oi] {
+							badMu.Lock()
+							bads = append(bads, bad{oi, got, g, false})
+							badMu.Unlock()
+						}
+						continue
 					}
 					current[g].Store(int32(oi) + 1)
 					for o := range current {
